@@ -198,7 +198,7 @@ def registerSigner (s : State) (d : EpochData) : State × Bool :=
         (keepErr { s with env := env1, posts := s.posts ++ [⟨r, k, d.epoch, false⟩] }, false)
       else
         let delivered := !s.env.regDrop
-        let env2 := if delivered then { env1 with aggReg := env1.aggReg ++ [(r, ⟨0, k⟩)] } else env1
+        let env2 := { env1 with aggReg := if delivered then env1.aggReg ++ [(r, ⟨0, k⟩)] else env1.aggReg }
         let p : Post := ⟨r, k, d.epoch, delivered⟩
         ({ s with env := env2, posts := s.posts ++ [p], saved := s.saved ++ [p],
                   st := { s.st with inis := s.st.inis ++ [(r, k)] } }, true)
@@ -255,44 +255,50 @@ def mark (s : State) (x : Entity) : State :=
   if s.env.markFail > 0 then keepErr { s with env := { s.env with markFail := s.env.markFail - 1 } }
   else { s with st := { s.st with signed := s.st.signed ++ [(s.env.epoch, x)] }, res := .ok }
 
+/-- publication under the fault schedule (retry policy: `attempts` requests per tick), then mark -/
+def publishMark (s : State) (d : EpochData) (x : Entity) (k sv : Nat) : State :=
+  if s.env.down then keepErr s
+  else if s.env.pubFail < s.env.attempts then
+    mark { s with env := { s.env with pubFail := s.env.pubFail - min s.env.pubFail s.env.attempts },
+                  pubs := s.pubs ++ [⟨x, k, d.epoch, s.env.epoch, sv⟩] } x
+  else keepErr { s with env := { s.env with pubFail := s.env.pubFail - min s.env.pubFail s.env.attempts } }
+
+/-- `compute_message` (entity part, then the seed: next aggregate verification key) and
+`compute_publish_single_signature` for the selected entity -/
+def signEntity (s : State) (d : EpochData) (x : Entity) (lost : Bool) : State :=
+  if x.disc == Disc.csd && (lookup s.st.stakes (x.epoch + 2)).isNone then keepErr s
+  else if (lookup s.st.inis (nextRetrieval d.epoch)).isNone then keepErr s
+  else if (lookup s.st.stakes (nextRetrieval d.epoch)).isNone then keepErr s
+  else if d.next.isEmpty then keepErr s
+  else
+    match d.ini, lookup s.st.stakes (retrieval d.epoch) with
+    | some k, some sv =>
+      if d.cur.isEmpty then keepErr s
+      else if lost then mark s x
+      else publishMark s d x k sv
+    | _, _ => keepErr s
+
 /-- `ReadyToSign { epoch: e }` -/
 def tickReady (s : State) (e : Nat) (lost : Bool) : State :=
-  let t := s.env.epoch
-  if e < t then { s with mach := .unreg t, res := .ok }
+  if e < s.env.epoch then { s with mach := .unreg s.env.epoch, res := .ok }
   else match s.data with
   | none => keepErr s
   | some d =>
-    if d.allowed.contains Disc.csd && t == 0 then keepErr s else
+    if d.allowed.contains Disc.csd && s.env.epoch == 0 then keepErr s else
     match beaconToSign s d with
     | none => { s with res := .ok }
-    | some x =>
-      -- compute_message: entity part, then the seed (next aggregate verification key)
-      if x.disc == Disc.csd && (lookup s.st.stakes (x.epoch + 2)).isNone then keepErr s
-      else if (lookup s.st.inis (nextRetrieval d.epoch)).isNone then keepErr s
-      else if (lookup s.st.stakes (nextRetrieval d.epoch)).isNone then keepErr s
-      else if d.next.isEmpty then keepErr s
-      else
-      -- compute_single_signature
-      match d.ini, lookup s.st.stakes (retrieval d.epoch) with
-      | some k, some sv =>
-        if d.cur.isEmpty then keepErr s
-        else if lost then mark s x
-        else if s.env.down then keepErr s
-        else
-          let used := min s.env.pubFail s.env.attempts
-          let env1 := { s.env with pubFail := s.env.pubFail - used }
-          if s.env.pubFail < s.env.attempts then
-            mark { s with env := env1, pubs := s.pubs ++ [⟨x, k, d.epoch, t, sv⟩] } x
-          else keepErr { s with env := env1 }
-      | _, _ => keepErr s
+    | some x => signEntity s d x lost
+
+/-- `StateMachine::cycle` -/
+def tick (s : State) (lost : Bool) : State :=
+  match s.mach with
+  | .init => tickInit s
+  | .unreg e => tickUnreg s e
+  | .notAble e => tickNotAble s e
+  | .ready e => tickReady s e lost
 
 def step (s : State) : Event → State
-  | .tick lost =>
-    match s.mach with
-    | .init => tickInit s
-    | .unreg e => tickUnreg s e
-    | .notAble e => tickNotAble s e
-    | .ready e => tickReady s e lost
+  | .tick lost => tick s lost
   | .restart => { s with mach := .init, data := none, res := .none }
   | .epochUp v => { s with env := { s.env with epoch := s.env.epoch + 1, stakeVer := v }, res := .none }
   | .aggEpochUp => { s with env := { s.env with aggEpoch := s.env.aggEpoch + 1 }, res := .none }
